@@ -23,7 +23,7 @@ ASSUMPTIONS = ["termination restated as a step budget of 2e5 + 2e3*len(text) lin
                "texts declaring registers larger than 6 qubits, or whose loops unroll to more than 20000 statement executions, are parsed but not executed (resource use proportional to the program, not termination)",
                "ImportError is accepted only when the program names a pulse module and pulses are auto-loaded"]
 TIERS = {"quick": {"shards": 8, "budget_s": 100}, "thorough": {"shards": 16, "budget_s": 480}}
-REQUIRE = {"class:deep-nesting-from-deep-stack": 40, "hang-probes": 15, "calls": 20000, "class:random": 1000, "class:truncation": 2000, "class:mutant": 2000, "class:template": 200,
+REQUIRE = {"alternating-twin-parses": 400, "class:deep-nesting-from-deep-stack": 40, "hang-probes": 15, "calls": 20000, "class:random": 1000, "class:truncation": 2000, "class:mutant": 2000, "class:template": 200,
            "outcome:JaqalParseError": 2000, "outcome:JaqalError": 500, "outcome:ok": 500, "position-checked": 2000,
            "histories": 8, "history-steps": 300, "fresh-single-text-runs": 8, "illegal-character-texts": 200,
            "relative-import-probes": 1}
@@ -803,6 +803,29 @@ def shard(ctx):
     histories(ctx, pool)
     if ctx.index == 0:
         relative_import_probe(ctx)
+    if ctx.index == 2 % ctx.nshards:
+        # the same two texts, one legal and one not, parsed alternately many times in one process: whatever the parser
+        # remembers about objects of an earlier parse (their ids are reused once they are freed) must not change a verdict
+        pairs = [
+            ("register q[2]\nmacro in a { subcircuit { X a } }\nmacro out a { in a }\n< out q[0] | X q[1] >\n",
+             "register q[2]\nmacro in a { X a }\nmacro out a { in a }\nprepare_all\n< out q[0] | X q[1] >\nmeasure_all\n"),
+            ("register q[2]\nmacro f a { X a }\nmacro g a b { f a ; f b }\nprepare_all\ng q[0] q[2]\nmeasure_all\n",
+             "register q[2]\nmacro f a { X a }\nmacro g a b { f a ; f b }\nprepare_all\ng q[0] q[1]\nmeasure_all\n"),
+        ]
+        for bad, good in pairs:
+            first = {}
+            for k in range(120):
+                for tag, t in (("refused", bad), ("accepted", good)):
+                    o, info = call("run", t, {"native": True})
+                    rec.count("alternating-twin-parses")
+                    first.setdefault(tag, o[0])
+                    if o[0] != first[tag]:
+                        rec.violation(sig("C16", "sticky-state:verdict-changes-when-two-texts-alternate"),
+                                      {"text": t, "first": first[tag], "round": k, "now": list(o)[:3]}, {"kind": "alternate", "texts": [bad, good]})
+                        break
+                else:
+                    continue
+                break
     if ctx.index == 1 % ctx.nshards:
         # nestings close to the interpreter's recursion limit, entered from callers whose own stack is already deep:
         # whichever pass runs out of stack, what comes out is a JaqalError (or a result)
@@ -818,6 +841,17 @@ def replay(ctx, case):
         st, t = _timed_parse(case["text"], 60)
         if st == "timeout":
             ctx.rec.violation(sig("C16", "does-not-terminate:" + case.get("class", "")), {"characters": len(case["text"]), "limit_s": 60}, case)
+        return
+    if case.get("kind") == "alternate":
+        bad, good = case["texts"]
+        first = {}
+        for k in range(200):
+            for tag, t in (("refused", bad), ("accepted", good)):
+                o, info = call("run", t, {"native": True})
+                first.setdefault(tag, o[0])
+                if o[0] != first[tag]:
+                    ctx.rec.violation(sig("C16", "sticky-state:verdict-changes-when-two-texts-alternate"), {"text": t, "round": k}, case)
+                    return
         return
     if case.get("kind") in ("history", "import"):
         print("replay of process-level histories is done by re-running the check; steps are in the replay file")
